@@ -1106,7 +1106,18 @@ pub fn c19_random(ctx: &Ctx, pool: &PhrasePool, rng: &mut Rng, seed: u64) -> His
         // output must be what it is otherwise (the directory is complete by now, so the writes are
         // those that print the results)
         let inject = if ctx.caps_strace && rng.chance(1, 3) { Some(("write".to_string(), rng.range(1, 12), "EINTR".to_string())) } else { None };
-        steps.push(Step::Cli { query: q.clone(), exact: *exact, describe: *describe, env: vec![], split: rng.chance(1, 3), inject });
+        // what is printed for a query does not depend on the terminal type, colour preferences, log
+        // level or locale of the environment (colour escapes are stripped before comparison; log lines
+        // go to stderr, which is not judged)
+        let mut env: Vec<(String, String)> = Vec::new();
+        if rng.chance(1, 3) {
+            for (k, vals) in [("TERM", &["xterm-256color", "vt100", "<unset>"][..]), ("NO_COLOR", &["<unset>", ""][..]), ("RUST_LOG", &["info", "warn", "anything=trace"][..]), ("LANG", &["de_DE.UTF-8", "C", "tr_TR.UTF-8"][..]), ("LC_ALL", &["de_DE.UTF-8", "C"][..]), ("COLUMNS", &["20", "400"][..])] {
+                if rng.chance(1, 2) {
+                    env.push((k.to_string(), rng.pick(vals).to_string()));
+                }
+            }
+        }
+        steps.push(Step::Cli { query: q.clone(), exact: *exact, describe: *describe, env, split: rng.chance(1, 3), inject });
     }
     let texts: Vec<String> = queries.iter().map(|q| q.0.clone()).collect();
     steps.push(Step::Start {
